@@ -48,6 +48,8 @@ pub fn case(rng: &mut Rng) -> String {
     let m = 1 + rng.below(4);
     let k = 1 + rng.below(4);
     let op = rng.below(30);
+    // functions of zero inputs (a matrix with rows but no columns: only the bias carries data)
+    let n = if op <= 14 && rng.chance(1, 10) { 0 } else { n };
     match op {
         0 | 1 => {
             // compose f g ; occasionally with mismatching dimensions (the code asserts)
